@@ -5,6 +5,7 @@ import (
 	"errors"
 	"fmt"
 	"io"
+	"math/rand"
 	"strings"
 	"time"
 
@@ -33,6 +34,9 @@ func c19APIcases(tier string) []fw.Case {
 		}
 	}
 	cs = append(cs, fw.Mk("api/misc", c19API{Mode: "api", Kind: "misc", Rep: scale(tier, 2, 300)}))
+	for i := 0; i < 8; i++ {
+		cs = append(cs, fw.Mk(fmt.Sprintf("api/retry-chains-%d", i), c19API{Mode: "api", Kind: "chain", Rep: scale(tier, 40, 3000)}))
+	}
 	return cs
 }
 
@@ -46,11 +50,15 @@ func c19APIRun(c fw.Case, env *fw.Env) fw.Result {
 	var p c19API
 	fw.Params(c, &p)
 	r := fw.Result{Counters: map[string]int{}}
+	rng := env.Rng(c)
 	for i := 0; i < p.Rep; i++ {
 		var sig, det string
 		var trc []string
 		if p.Kind == "misc" {
 			sig, det = c19Misc()
+		} else if p.Kind == "chain" {
+			sig, det, trc = c19Chain(rng, i)
+			r.Counters["retry_chains"]++
 		} else {
 			sig, det, trc = c19Interrupt(p.Kind, p.Cause, i)
 		}
@@ -401,4 +409,161 @@ func c19Misc() (string, string) {
 	}
 	_ = conn
 	return "", ""
+}
+
+// c19Chain: a request is interrupted again and again; every returned error must carry a retry handle,
+// and the handles, invoked on fresh clients one after the other, must continue the same exchange:
+// PUBLISH with the same id/content and DUP=1 until PUBREC was received, only PUBREL(id) afterwards,
+// the same SUBSCRIBE / UNSUBSCRIBE for the other kinds, until a client lets it complete.
+func c19Chain(rng *rand.Rand, rep int) (sig, detail string, trace []string) {
+	kind := []string{"pub1", "pub2", "pub2", "sub", "unsub"}[rng.Intn(5)]
+	hops := 1 + rng.Intn(5)
+	// plan[i] for attempt i (0-based): "cut" (close after the request packet, no answer),
+	// "rec-cut" (QoS 2 first stage: send PUBREC, close after PUBREL), "ok" (complete)
+	plan := make([]string, hops+1)
+	for i := 0; i < hops; i++ {
+		plan[i] = "cut"
+		if kind == "pub2" && rng.Intn(2) == 0 {
+			plan[i] = "rec-cut"
+		}
+	}
+	plan[hops] = "ok"
+	tr := memnet.NewTrace()
+	stage := map[int]string{}
+	peer := &scen.Script{Tr: tr, AutoConnack: true}
+	peer.OnPkt = func(cn *memnet.Conn, p *mqttref.Packet, raw []byte) bool {
+		if p == nil || p.Type == mqttref.CONNECT {
+			return false
+		}
+		pl := plan[cn.ID-1]
+		switch {
+		case pl == "ok":
+			if a := scen.AckFor(p); a != nil {
+				cn.SendLocked(a, "")
+			}
+		case pl == "cut":
+			cn.PeerCloseLocked("chain: cut after request")
+		case pl == "rec-cut":
+			if p.Type == mqttref.PUBLISH {
+				cn.SendLocked(mqttref.EncAck(mqttref.PUBREC, p.ID), "")
+				stage[cn.ID] = "rec-sent"
+			} else {
+				cn.PeerCloseLocked("chain: cut after PUBREL")
+			}
+		}
+		return false
+	}
+	fail := func(s, f string, a ...interface{}) (string, string, []string) {
+		return s + ":chain-" + kind, fmt.Sprintf("chain %s plan %v: ", kind, plan) + fmt.Sprintf(f, a...), tr.Dump(80)
+	}
+	msg := &mqtt.Message{Topic: "c19/chain", Payload: []byte(fmt.Sprintf("c%d", rep)), Retain: rng.Intn(2) == 0}
+	subs := []mqtt.Subscription{{Topic: "c19/x", QoS: mqtt.QoS(rng.Intn(3))}, {Topic: "c19/y/+", QoS: mqtt.QoS(rng.Intn(3))}}
+	wantSubs := []mqttref.Sub{{Filter: "c19/x", QoS: byte(subs[0].QoS)}, {Filter: "c19/y/+", QoS: byte(subs[1].QoS)}}
+	var handle mqtt.ErrorWithRetry
+	var firstID uint16
+	recSeen := false
+	for i := 0; i <= hops; i++ {
+		cli, conn := scen.NewBase(tr, peer)
+		if err := scen.ConnectBase(cli); err != nil {
+			return "inconclusive", err.Error(), nil
+		}
+		ctx, cancel := context.WithTimeout(context.Background(), scen.Watchdog)
+		var err error
+		if i == 0 {
+			switch kind {
+			case "pub1":
+				msg.QoS = mqtt.QoS1
+				err = cli.Publish(ctx, msg)
+			case "pub2":
+				msg.QoS = mqtt.QoS2
+				err = cli.Publish(ctx, msg)
+			case "sub":
+				_, err = cli.Subscribe(ctx, subs...)
+			case "unsub":
+				err = cli.Unsubscribe(ctx, "c19/x", "c19/y/+")
+			}
+		} else {
+			err = handle.Retry(ctx, cli)
+		}
+		cancel()
+		// what this attempt wrote
+		var got []*mqttref.Packet
+		for _, e := range tr.Snapshot() {
+			if e.Kind == memnet.KWrite && e.Conn == conn.ID && e.Pkt != nil && e.Pkt.Type != mqttref.CONNECT {
+				if e.Mal != "" {
+					return fail("retry-malformed", "attempt %d wrote %v", i, e)
+				}
+				got = append(got, e.Pkt)
+			}
+		}
+		desc := func() string {
+			var s []string
+			for _, g := range got {
+				s = append(s, g.String())
+			}
+			return strings.Join(s, ", ")
+		}
+		switch kind {
+		case "pub1", "pub2":
+			if !recSeen {
+				if len(got) == 0 || got[0].Type != mqttref.PUBLISH {
+					return fail("retry-different-request", "attempt %d (PUBREC not yet received) wrote %s, want PUBLISH", i, desc())
+				}
+				g := got[0]
+				if i == 0 {
+					firstID = g.ID
+				}
+				if g.ID != firstID || g.ID == 0 || g.Topic != msg.Topic || string(g.Payload) != string(msg.Payload) || g.QoS != byte(msg.QoS) || g.Retain != msg.Retain || g.Dup != (i > 0) {
+					return fail("retry-different-request", "attempt %d wrote %v, first transmission had id %d (want same id/content, DUP=%v)", i, g, firstID, i > 0)
+				}
+				for _, x := range got[1:] {
+					if x.Type != mqttref.PUBREL || x.ID != firstID {
+						return fail("retry-different-request", "attempt %d wrote %s", i, desc())
+					}
+				}
+			} else {
+				if len(got) != 1 || got[0].Type != mqttref.PUBREL || got[0].ID != firstID {
+					return fail("publish-after-pubrec", "attempt %d: PUBREC had been received on an earlier client, the retry handle wrote %s, want only PUBREL(%d)", i, desc(), firstID)
+				}
+			}
+			if stage[conn.ID] == "rec-sent" {
+				recSeen = true
+			}
+		case "sub":
+			if len(got) != 1 || got[0].Type != mqttref.SUBSCRIBE || len(got[0].Subs) != 2 || got[0].Subs[0] != wantSubs[0] || got[0].Subs[1] != wantSubs[1] {
+				return fail("retry-different-request", "attempt %d wrote %s, want SUBSCRIBE %v", i, desc(), wantSubs)
+			}
+		case "unsub":
+			if len(got) != 1 || got[0].Type != mqttref.UNSUBSCRIBE || strings.Join(got[0].Filters, ",") != "c19/x,c19/y/+" {
+				return fail("retry-different-request", "attempt %d wrote %s", i, desc())
+			}
+		}
+		if plan[i] == "ok" {
+			cli.Close()
+			if err != nil {
+				return fail("retry-failed", "attempt %d on an acknowledging client returned %v", i, err)
+			}
+			return "", "", nil
+		}
+		if err == nil {
+			cli.Close()
+			return fail("nil-on-interrupt", "attempt %d was interrupted (%s) but returned nil", i, plan[i])
+		}
+		if scen.IsDeadline(err) {
+			cli.Close()
+			return "inconclusive", "attempt hit the watchdog", nil
+		}
+		if !errors.Is(err, mqtt.ErrClosedTransport) && !errors.Is(err, io.EOF) {
+			cli.Close()
+			return fail("cause-not-inspectable", "attempt %d interrupted by peer close returned %v", i, err)
+		}
+		h, ok := err.(mqtt.ErrorWithRetry)
+		if !ok {
+			cli.Close()
+			return fail("no-retry-handle", "attempt %d returned %v (%T) without a retry handle", i, err, err)
+		}
+		handle = h
+		cli.Close()
+	}
+	return "", "", nil
 }
